@@ -56,9 +56,10 @@ def setTy : TyEnv → String → Ty → TyEnv
   | [], _, _ => []
   | (y, t) :: r, x, w => if x = y then (y, w) :: r else (y, t) :: setTy r x w
 
+/-- `dict.pop(x)` (keys of `pending` are unique: a key is only added when it is absent) -/
 def eraseKey : TyEnv → String → TyEnv
   | [], _ => []
-  | (y, t) :: r, x => if x = y then r else (y, t) :: eraseKey r x
+  | (y, t) :: r, x => if x = y then eraseKey r x else (y, t) :: eraseKey r x
 
 structure BState where
   json : Bool := false                -- DictReader (asserts on duplicates) or text Reader
@@ -205,7 +206,10 @@ def build (st : BState) : Instr → Except RErr (BState × Instr)
   | .store _ v a vol =>
     let (st1, ov, tv) := lookup st (opName v) none
     let (st2, oa, ta) := lookup st1 (opName a) none
-    if ta ≠ .ptr then .error .TypeError else .ok (st2, .store tv ov oa vol)
+    -- the type of the stored value is derived from the value object; while that is a placeholder
+    -- the type is immaterial (it is set when the placeholder is replaced, see `patchInstr`)
+    if ta ≠ .ptr then .error .TypeError
+    else .ok (st2, .store (match ov with | .loc _ => tv | .glob _ => .ptr) ov oa vol)
   | .copyblob d s n =>
     let (st1, od, _) := lookup st (opName d) none
     let (st2, os, _) := lookup st1 (opName s) none
